@@ -56,3 +56,93 @@ Print Assumptions c03_batch_frontier_refuted.
 Example c03_example : variant 5 1 [3; 7; 2] = true /\ variant 5 0 [3; 7; 2] = false
                       /\ variant 5 2 [3; 7; 2] = false /\ all_old 5 [3; 4; 2] = true.
 Proof. repeat split. Qed.
+
+(* ------------------------------------------------------------------------------------------ *)
+(** * The stamped model ([Semi/Stamped.v]) and the end-to-end equivalence *)
+From Coq Require Import ZArith.
+Require Import Verif.gen.SemiFacts Verif.Egg.Model Verif.Egg.Rules Verif.Semi.Stamped Verif.Semi.StampedProofs.
+
+(** the re-stamping sites, regenerated from table/rebuild.rs (insert_row!, refresh_rows_for_values),
+    EGraph::rebuild, MergeFn::to_callback, run_rules_inner, flush_updates_inner, run_rules_impl *)
+Theorem c03_restamp_sites :
+  restamp_on_rebuild = true /\ 1 <= rebuild_insert_sites /\ refresh_restamps = true
+  /\ rebuild_ts_is_clock = true /\ restamp_on_merge_change = true /\ merge_ts_from_new = true
+  /\ merge_keeps_stamp_when_unchanged = true /\ last_run_set_to_run_ts = true /\ run_ts_is_clock = true
+  /\ inc_ts_no_rebuild_path = true /\ inc_ts_rebuild_path = true /\ inc_ts_flush = true
+  /\ fl_rebuild src_flags = true /\ fl_merge src_flags = true.
+Proof. repeat split; try reflexivity; apply Nat.leb_le; reflexivity. Qed.
+Print Assumptions c03_restamp_sites.
+
+(** the one fact the proof needs from the stamping discipline: a stamp older than the clock was
+    inherited from the identical row of the previous table *)
+Theorem c03_stamp_old : forall fl now p t ts r,
+  fl_rebuild fl = true -> fl_merge fl = true ->
+  new_stamp fl now p t ts r < now -> In (r, new_stamp fl now p t ts r) (combine t ts).
+Proof. exact new_stamp_old. Qed.
+Print Assumptions c03_stamp_old.
+
+(** END-TO-END: for every signature, every program (top-level writes, rule declarations late or
+    early, iterations of ANY rulesets in any order) whose ground commands lie in a fragment [P] with
+    idempotent re-application (an executed command is a no-op; a no-op stays a no-op when further
+    commands of the fragment run; grounding through witness terms is stable), the databases after
+    EVERY command of the semi-naive run and of the naive run are equal. *)
+Theorem c03_equiv : forall (sg : list mergefn) (W : state -> Prop) (P : xcmd -> Prop)
+                           (EnvOk : state -> env -> Prop),
+  (forall s c s', W s -> P c -> xexec sg s c = (s', None) -> W s') ->
+  (forall s c s', W s -> P c -> xexec sg s c = (s', None) -> xexec sg s' c = (s', None)) ->
+  (forall s c c' s', W s -> P c -> P c' -> xexec sg s c = (s, None) ->
+      xexec sg s c' = (s', None) -> xexec sg s' c = (s', None)) ->
+  (forall s fs e, W s -> In e (match_body s fs [[]]) -> EnvOk s e) ->
+  (forall s c s' e, W s -> P c -> xexec sg s c = (s', None) -> EnvOk s e ->
+      EnvOk s' e /\ forall a, ground_action s' e a = ground_action s e a) ->
+  P XPanic -> W (init (length sg)) ->
+  forall ks, Forall (scmd_in P) ks -> run_semi sg ks = run_naive sg ks.
+Proof.
+  intros sg W P EnvOk H1 H2 H3 H4 H5 H6 H7 ks HK. unfold run_semi, run_naive.
+  apply (srun_equiv sg src_flags (proj1 src_flags_on) (proj2 src_flags_on) W P EnvOk H1 H2 H3 H4 H5 H6);
+    auto.
+  apply ts_inv_init. exact H7.
+Qed.
+Print Assumptions c03_equiv.
+
+(** the timestamp invariant: what semi-naive evaluation skips (a match all of whose rows are older
+    than the rule's last run) has only no-op commands *)
+Theorem c03_ts_inv : forall (sg : list mergefn) (W : state -> Prop) (P : xcmd -> Prop) rules X sel,
+  ts_inv sg W P (X, rules) ->
+  forall bc, In bc (sel_tagged rules X sel) -> fst bc = false -> xexec sg (ss X) (snd bc) = (ss X, None).
+Proof. exact skipped_noop. Qed.
+Print Assumptions c03_ts_inv.
+
+(** a row re-keyed by the rebuild MUST get the new timestamp: with [restamp_on_rebuild] flipped the
+    match (f (b)) that exists only after (union b a) re-keys (f a) is lost *)
+Definition c03_sg1 := [MUnionId; MUnionId; MUnionId; MUnionId].
+Definition c03_ks1 :=
+  [SAct (AExpr (PApp 0 [])); SAct (AExpr (PApp 2 [PApp 1 []]));
+   SRule (mkRule [FEq 0 (PApp 2 [PApp 0 []])] [AExpr (PApp 3 [PVar 0])]); SIter [0];
+   SAct (AUnion (PApp 1 []) (PApp 0 [])); SIter [0]].
+Theorem c03_restamp_on_rebuild_refuted :
+  map tabs_size (srun true (mkFlags false true) c03_sg1 (sinit 4) c03_ks1) = [1; 3; 3; 3; 3; 3]
+  /\ map tabs_size (srun false (mkFlags false true) c03_sg1 (sinit 4) c03_ks1) = [1; 3; 3; 3; 3; 4].
+Proof. split; vm_compute; reflexivity. Qed.
+Print Assumptions c03_restamp_on_rebuild_refuted.
+
+(** a merge that changes the value MUST re-stamp: with [restamp_on_merge_change] flipped the match
+    enabled by lowering a :merge min value is lost *)
+Definition c03_sg2 := [MUnionId; MMin; MUnionId].
+Definition c03_ks2 :=
+  [SAct (ASet 1 [PApp 0 []] (PInt 5));
+   SRule (mkRule [FEq 0 (PApp 1 [PApp 0 []]); FLt (PVar 0) (PInt 4)] [AExpr (PApp 2 [])]); SIter [0];
+   SAct (ASet 1 [PApp 0 []] (PInt 3)); SIter [0]].
+Theorem c03_restamp_on_merge_refuted :
+  map tabs_size (srun true (mkFlags true false) c03_sg2 (sinit 3) c03_ks2) = [2; 2; 2; 2; 2]
+  /\ map tabs_size (srun false (mkFlags true false) c03_sg2 (sinit 3) c03_ks2) = [2; 2; 2; 2; 3].
+Proof. split; vm_compute; reflexivity. Qed.
+Print Assumptions c03_restamp_on_merge_refuted.
+
+(** with the flags read from the source both late matches are found (and the runs are non-trivial) *)
+Example c03_stamped_example :
+  map tabs_size (run_semi c03_sg1 c03_ks1) = [1; 3; 3; 3; 3; 4]
+  /\ run_semi c03_sg1 c03_ks1 = run_naive c03_sg1 c03_ks1
+  /\ map tabs_size (run_semi c03_sg2 c03_ks2) = [2; 2; 2; 2; 3]
+  /\ run_semi c03_sg2 c03_ks2 = run_naive c03_sg2 c03_ks2.
+Proof. repeat split; vm_compute; reflexivity. Qed.
